@@ -49,7 +49,9 @@ func init() {
 		"strconv.FormatUint":           extFormatUint,
 		"strconv.FormatInt":            extFormatInt,
 		"strconv.Itoa":                 extItoa,
-		"strconv.Atoi":                 extAtoi,
+		"strconv.cloneString":          extIdentity,
+		"internal/stringslite.Clone":   extIdentity,
+		"strings.Clone":                extIdentity,
 		"strconv.Quote":                extQuote,
 		"(*sync.Once).Do":              extOnceDo,
 		"(*sync.Mutex).Lock":           extNop,
@@ -74,6 +76,8 @@ func init() {
 		"io/fs.ErrNotExist": func(in *Interp, g *ssa.Global) Value { return in.errNotExist() },
 	}
 }
+
+func extIdentity(in *Interp, fn *ssa.Function, args []Value) Value { return args[0] }
 
 func extNop(in *Interp, fn *ssa.Function, args []Value) Value { return zeroResults(fn) }
 
